@@ -235,7 +235,7 @@ func (r *Report) writeEvidence(path string, discharged, violated, nontrivial int
 	for _, n := range names {
 		expl = append(expl, fmt.Sprintf("[%s] %s", n, r.Rules[n]))
 	}
-	explanation := "Static analysis of /repo's current source (go/packages type-checked syntax, go/ssa, VTA call graph); nothing is executed. Rules applied: " +
+	explanation := "Static analysis of /repo's current source (go/packages type-checked syntax, go/ssa; normalised against the reference tree as described in DESIGN.md §10.5); nothing is executed. Rules applied: " +
 		strings.Join(expl, " ")
 	if r.NotDecided != "" {
 		explanation += " NOT DECIDED by this check: " + r.NotDecided
